@@ -436,7 +436,8 @@ pub fn replay(ctx: &mut Ctx, v: &Value) {
     let feature_unimock = v.get("feature_unimock").and_then(|b| b.as_bool()).unwrap_or(false);
     ctx.count_eval();
     match run_single("c01-replay", feature_unimock, &src) {
-        None => crate::ev::inconclusive("replayed program does not compile"),
+        // (stored programs compile on the tree they were stored for: this check judges compile failures)
+        None => ctx.violation("the stored program does not compile after expansion", v),
         Some((status, msg)) => {
             if status != "ok" {
                 ctx.violation(&format!("trait call differs from the direct call ({status}): {msg}"), v);
